@@ -62,7 +62,9 @@ func (e *withSecondaryError) Unwrap() error { return e.cause }
 func encodeWithSecondaryError(ctx context.Context, err error) (string, []string, proto.Message) {
 	e := err.(*withSecondaryError)
 	enc := errbase.EncodeError(ctx, e.secondaryError)
-	return "", nil, &enc
+	// The safe details travel as well: a process that does not know this
+	// type cannot compute them from the payload.
+	return "", e.SafeDetails(), &enc
 }
 
 func decodeWithSecondaryError(
